@@ -435,6 +435,19 @@ def genC04 (tier : Tier) (seed : Nat) (o : Out) : IO Unit := do
   emit o "catalogue/no-module-file-attribute-only" [{ fileAttrs := [a0 "allow" ["All"]], module := none, defs := [] }]
   emit o "catalogue/no-module-second-file" [file [str "S" []], { fileAttrs := [], module := none, defs := [str "T" []] }]
   emit o "catalogue/no-module-and-parse-error" [{ fileAttrs := [], module := none, defs := [str "S" [fld "a" (pt .bool true) (some (lit (-1)))]] }]
+  -- same simple names in different modules, reached through one inheritance graph (the bases are de-duplicated by scoped name)
+  let audit := file [ifc "Base" [op "log"]] "Audit"
+  let billing := file [ifc "Base" [op "charge"]] "Billing"
+  for (nme, app) in [("shadow-second-same-named-base", [ifc "Service" [op "charge"] [nm "Audit::Base", nm "Billing::Base"]]),
+                      ("shadow-first-same-named-base", [ifc "Service" [op "log"] [nm "Audit::Base", nm "Billing::Base"]]),
+                      ("shadow-same-named-base-through-middle", [ifc "Middle" [] [nm "Billing::Base"], ifc "Service" [op "charge"] [nm "Audit::Base", nm "Middle"]]),
+                      ("shadow-same-named-base-own-module", [ifc "Base" [op "own"] [nm "Audit::Base"], ifc "Service" [op "log"] [nm "Base", nm "Billing::Base"]]),
+                      ("no-shadow-same-named-bases", [ifc "Service" [op "other"] [nm "Audit::Base", nm "Billing::Base"]]),
+                      ("same-op-in-same-named-bases", [ifc "Service" [] [nm "Audit::Base", nm "::Billing::Base"]])] do
+    for P in [[audit, billing, file app "App"], [file app "App", billing, audit]] do
+      emit o ("catalogue/" ++ nme) P
+  emit o "catalogue/same-named-structs-as-key-and-field" [file [str "K" [fld "a" (pt .bool)] true] "P", file [str "K" [fld "a" (pt .float32)] true] "Q",
+    file [str "U" [fld "d" (tr (.dict (nm "P::K") (nm "Q::K")))], str "V" [fld "d" (tr (.dict (nm "Q::K") (nm "P::K")))]] "R"]
   emit o "catalogue/dup-struct-two-files" [file [str "S" []], file [str "S" []]]
   emit o "catalogue/same-name-two-modules" [file [str "S" []], file [str "S" []] "N"]
   emit o "catalogue/dup-struct-nested-module" [file [str "S" []] "A::B", file [enm "S" [enr "X"]] "A::B"]
